@@ -284,6 +284,8 @@ def run_check(pid, pc, tier, seed, repo, work, t0, replay):
 
     violations = []   # (obligation, unit, texts, items)
     undecided = []
+    fb_cache = {}
+    second_backend = []
     own = pc.get('own', {})
     obligations = 0
     discharged = 0
@@ -349,6 +351,27 @@ def run_check(pid, pc, tier, seed, repo, work, t0, replay):
                                      'the failed proof is no evidence about the code' % (u, f))
                     continue
                 if pat is None or re.search(pat, f):
+                    # second back end: a small bit-level / arithmetic function whose contract is also stated as a complete CBMC
+                    # harness (kani/k_bits.rs). Verus fails such a function for want of a bit-vector / non-linear hint as soon
+                    # as it is written differently; CBMC decides the same contract bit-precisely on the text as it stands.
+                    hb = kani_run.FALLBACK.get(re.sub(r'^.*?([A-Za-z_0-9]+::[A-Za-z_0-9]+|[a-z_0-9]+)$', r'\1', f)) if kani_run is not None else None
+                    if hb is not None:
+                        if hb not in fb_cache:
+                            fbw = os.path.join(work, 'fallback-' + hb)
+                            os.makedirs(fbw, exist_ok=True)
+                            fb_cache[hb] = kani_run.run_groups([hb], 'fallback', repo, fbw)
+                        fbr = fb_cache[hb]
+                        st = (fbr['info'].get('harnesses', {}).get(hb) or {}).get('status')
+                        if st == 'SUCCESSFUL' and not fbr['undecided'] and not fbr['violations']:
+                            discharged += 1
+                            cmds.extend(c for c in fbr['cmds'] if c not in cmds)
+                            second_backend.append('%s::%s: Verus could not discharge the contract on the text as it stands (%s); the same contract, stated as harness %s '
+                                                  '(kani/k_bits.rs, loop-free over the full input domain), is discharged by CBMC' % (u, f, (texts_[0].strip().split('\n')[0] if texts_ else 'failed'), hb))
+                            fn_samples.append({'unit': u, 'function': f, 'verus': 'failed', 'kani_harness': hb, 'status': 'SUCCESSFUL', 'discharged_by': 'CBMC'})
+                            continue
+                        for v in fbr['violations']:
+                            if v not in violations:
+                                violations.append(v)
                     items = []
                     for t in texts_:
                         items.extend(items_for_block(r.unit, t))
@@ -466,6 +489,7 @@ def run_check(pid, pc, tier, seed, repo, work, t0, replay):
             'canary': canary_info,
             'kani': kani_info,
             'scans': scan_info,
+            'discharged_by_second_back_end': second_backend,
             'undecided': undecided,
             'explanation': pc.get('explanation', ''),
         },
